@@ -49,6 +49,23 @@ type SymRef struct {
 type Str struct {
 	R      []*Term
 	Opaque bool
+	OTag   string // identity of the opaque content: equal tags denote equal (unmodelled) text
+}
+
+// repr identifies the content of a string for memoising comparisons of opaque text.
+func (s Str) repr() string {
+	var sb strings.Builder
+	for _, r := range s.R {
+		if r.IsConst() {
+			sb.WriteRune(rune(int32(r.U)))
+		} else {
+			sb.WriteString("<" + r.SMT() + ">")
+		}
+	}
+	if s.Opaque {
+		sb.WriteString("<<" + s.OTag + ">>")
+	}
+	return sb.String()
 }
 
 type MapV struct {
